@@ -1284,15 +1284,15 @@ pub fn run(args: &Args) -> i32 {
     )
     .assume("network definitions use lower-case HRP suffixes made of valid Bech32 HRP characters; two definitions are 'other networks' when their suffixes differ")
     .assume("upper-case hex inside [..] / {..} ids denotes the id but is not canonical: the parser may accept or reject it, the value must be right")
-    .floor("evaluations", args.tier.pick(50_000_000, 800_000_000))
-    .floor("address_roundtrip_ok", args.tier.pick(200_000, 3_000_000))
-    .floor("other_network_rejected", args.tier.pick(10_000_000, 150_000_000))
-    .floor("typed_mismatch_rejected", args.tier.pick(500_000, 8_000_000))
-    .floor("localid_roundtrips_ok", args.tier.pick(1_000_000, 15_000_000))
-    .floor("localid_text:invalid:rejected", args.tier.pick(4_000_000, 60_000_000))
-    .floor("localid_text:valid:accepted", args.tier.pick(1_000_000, 15_000_000))
-    .floor("localid_bytes_cases", args.tier.pick(1_500_000, 20_000_000))
-    .floor("globalid_roundtrips_ok", args.tier.pick(100_000, 1_500_000))
+    .floor("evaluations", args.tier.pick(6250000, 100000000))
+    .floor("address_roundtrip_ok", args.tier.pick(25000, 375000))
+    .floor("other_network_rejected", args.tier.pick(1250000, 18750000))
+    .floor("typed_mismatch_rejected", args.tier.pick(62500, 1000000))
+    .floor("localid_roundtrips_ok", args.tier.pick(125000, 1875000))
+    .floor("localid_text:invalid:rejected", args.tier.pick(500000, 7500000))
+    .floor("localid_text:valid:accepted", args.tier.pick(125000, 1875000))
+    .floor("localid_bytes_cases", args.tier.pick(187500, 2500000))
+    .floor("globalid_roundtrips_ok", args.tier.pick(12500, 187500))
     .explain("evaluations = individual encode/decode/parse calls compared with an oracle; distinct_nontrivial = distinct (case kind, entity/network or grammar class, outcome, shape) behaviours");
     let mut report = Report::new(args, spec);
     let nets = Nets::new();
